@@ -47,7 +47,7 @@ class C20(BaseCheck):
   REQUIRED_ANCHORS = ANCHORS
   REQUIRED_CLASSES = ('name:plain', 'name:x_', 'name:x__', 'name:_x', 'name:__x__', 'uri:tcp', 'uri:zk',
                       'uri:bad', 'result:error', 'result:later', 'inherited', 'function-name-differs', 'alias',
-                      'uri:tcp-read-again', 'kwargs:loaded-names', 'ancestors-proxied-first', 'declared:classmethod', 'declared:staticmethod')
+                      'uri:tcp-read-again', 'kwargs:loaded-names', 'ancestors-proxied-first', 'declared:classmethod', 'declared:staticmethod', 'declared:abstractmethod')
   ASSUMPTIONS = ('public method = every user method that is not a dunder name (the property quantifies over names '
                  'with leading and trailing underscores, so _x and _x_ are judged like any other); names that collide with '
                  'another method\'s _async form or with the proxy base class are not generated',)
@@ -71,6 +71,7 @@ class C20(BaseCheck):
     levels = []
     all_methods = {}
     base = object
+    abstract_case = idx % 5 == 3
     sigs = ['pos', 'default', 'varargs', 'kwargs', 'noargs', 'pos', 'default', 'kwargs', 'classmethod', 'staticmethod']
     for level in range(depth):
       ns = {}
@@ -101,6 +102,11 @@ class C20(BaseCheck):
           m.__name__ = fn_name
           if fn_name != name:
             classes.add('function-name-differs')
+          if abstract_case and sig not in ('classmethod', 'staticmethod') and not name.startswith('__') and rng.random() < 0.6:
+            # the interface is written as an abstract base class: its methods are declarations only
+            import abc
+            classes.add('declared:abstractmethod')
+            return abc.abstractmethod(m)
           if sig in ('classmethod', 'staticmethod'):
             # an interface member declared as a class or static method is a method of the service all the same
             classes.add('declared:' + sig)
@@ -114,7 +120,11 @@ class C20(BaseCheck):
             ns[alias] = ns[name]          # 'fetch = get'
             all_methods[alias] = ('plain', sig, level)
             classes.add('alias')
-      base = type('Iface%d_%d' % (idx, level), (base,), ns)
+      if abstract_case:
+        import abc
+        base = abc.ABCMeta('Iface%d_%d' % (idx, level), (base,), ns)
+      else:
+        base = type('Iface%d_%d' % (idx, level), (base,), ns)
       levels.append(base)
     Iface = base
     # drop names colliding with another method's _async form
@@ -129,7 +139,16 @@ class C20(BaseCheck):
         ClientProxyBuilder.CreateServiceClient(anc)
     proxy_cls = ClientProxyBuilder.CreateServiceClient(Iface)
     disp = StubDispatcher()
-    proxy = proxy_cls(disp)
+    out.obligations += 1
+    try:
+      proxy = proxy_cls(disp)
+    except Exception as e:  # noqa: the generated client of an interface must be usable
+      out.violate('proxy:client-not-instantiable', 'the client generated for the interface cannot be created: %s: %s' % (
+        type(e).__name__, e), {'abstract_interface': abstract_case}, {'methods': sorted(all_methods)})
+      out.classes = sorted(classes)
+      out.nontrivial = True
+      out.sig = ('not-instantiable', abstract_case)
+      return out
 
     public = sorted(n for n in usable if not n.startswith('__'))
     shapes_used = set()
